@@ -229,6 +229,7 @@ type GuardEval struct {
 	// Inline resolves a call of a same-package niladic function/method to its
 	// single returned expression (nil = cannot inline).
 	Inline func(fn *types.Func) ast.Expr
+	subst map[types.Object]ast.Expr // parameters of an inlined one-line function → argument expressions
 }
 
 // Terms collects the role names used by the expressions.
@@ -424,7 +425,35 @@ func (g *GuardEval) eval(e ast.Expr, env map[string]int64, tc *termCollector) (i
 				return g.eval(body, env, tc)
 			}
 		}
+		// a one-line function of its arguments (`hasTimer(b.timer)` with `func hasTimer(t *time.Timer) bool {
+		// return t != nil }`): evaluate the body with the parameters standing for the argument expressions
+		if fn, ok := obj.(*types.Func); ok && len(x.Args) > 0 && g.Inline != nil {
+			sig, _ := fn.Type().(*types.Signature)
+			if body := g.Inline(fn); body != nil && sig != nil && sig.Params().Len() == len(x.Args) && !sig.Variadic() {
+				saved := g.subst
+				ns := map[types.Object]ast.Expr{}
+				for k, v := range saved {
+					ns[k] = v
+				}
+				for k := 0; k < sig.Params().Len(); k++ {
+					ns[sig.Params().At(k)] = x.Args[k]
+				}
+				g.subst = ns
+				v, err := g.eval(body, env, tc)
+				g.subst = saved
+				return v, err
+			}
+		}
 	case *ast.Ident, *ast.SelectorExpr:
+		if id, isId := x.(*ast.Ident); isId && g.subst != nil {
+			if arg, ok := g.subst[info.Uses[id]]; ok {
+				saved := g.subst
+				g.subst = nil // the argument is an expression of the caller
+				v, err := g.eval(arg, env, tc)
+				g.subst = saved
+				return v, err
+			}
+		}
 		obj := g.objOf(x)
 		if v, ok, err := term(obj, x); ok {
 			return v, err
